@@ -227,6 +227,9 @@ class C05(Prop):
                 yield ("ITER " + hx(f + f[:-cut]), "special-checksum-truncated", True)
         for total, f in big_cases(r)[::2]:
             yield ("BIGSCAN %d %s" % (total, hx(f)), "gigabyte-buffer", True)
+        for s in preamble_floods(r):
+            yield ("XSCAN " + hx(s), "false-preamble-flood", True)
+            yield ("XITER " + hx(s), "false-preamble-flood", True)
         for s in damaged_repeats(r, 6 if ctx.tier == "quick" else 20):
             yield ("ITER " + hx(s), "damaged-repeat", True)
             yield ("SCAN " + hx(s), "damaged-repeat", True)
